@@ -5,19 +5,24 @@ import seqxrun
 
 PROP = "C17"
 DEPTH = {"quick": 6, "thorough": 9}
+NODEDUP = {"quick": 6, "thorough": 7}
+NSH = 16
 
 
 def run(tier):
     t = vlib.Timer()
     exe = seqxrun.build("c17", ["c17.cpp"])
-    res = seqxrun.run_one(exe, ["--depth", DEPTH[tier]], timeout=1500)
-    fails = [res] if ("_crash" in res or "_timeout" in res) else []
-    tot = seqxrun.merge([] if fails else [res])
+    args = [["--depth", DEPTH[tier] if i == 0 else 0, "--nodedup-depth", NODEDUP[tier], "--shard", i, "--nshards", NSH] for i in range(NSH)]
+    parts = seqxrun.run_shards(exe, args, timeout=3000)
+    fails = [p for p in parts if "_crash" in p or "_timeout" in p]
+    tot = seqxrun.merge([p for p in parts if p not in fails])
+    tot["bound"] = "BFS with state merging: call sequences <= %d over 16 calls; without merging: every sequence <= %d over the 11 non-null calls" % (DEPTH[tier], NODEDUP[tier])
     return seqxrun.finish(
         PROP, tier, "model_checking", tot, t,
         rule="BFS over all sequences of the 11 typed insert/clear calls + 5 null-argument calls up to the depth bound on the real "
              "SortedPipeline; state = handlers() as (class, rank in class); every (state, call) transition executed; "
-             "distinct_nontrivial = distinct class arrangements observed",
+             "distinct_nontrivial = distinct class arrangements observed; in addition every call sequence up to a smaller depth is "
+             "executed on its own without state merging (guards against hidden state that handlers() does not show)",
         assumptions=["handlers() is the complete state of a SortedPipeline w.r.t. these calls (plus the immutable scoped flag)",
                      "ASan+UBSan build; a sanitizer report aborts the explorer and is an engine error to be triaged"],
         engine_failures=fails)
